@@ -477,6 +477,8 @@ class MolGraph:
             for bond, attrs in self._bond_attrs.items()
         }
         if copy is True:
+            atom_attrs = deepcopy(atom_attrs)
+            bond_attrs = deepcopy(bond_attrs)
             new_graph = self.__class__()
         elif copy is False:
             new_graph = self
